@@ -9,6 +9,10 @@ F(c, n) == [n1 |-> c, o1 |-> 0, n2 |-> 5, o2 |-> 1, opt |-> <<11, 12, 13, 14>>, 
 Anim(f) == [u1 |-> <<1,2,3,4>>, rect |-> [i \in 1..16 |-> i], disp |-> [i \in 1..8 |-> 100 + i], u2 |-> <<60,0,0,0>>, frames |-> <<f>>, unk |-> <<>>]
 V(c, n) == [palettes |-> <<>>, images |-> <<>>, anims |-> << Anim(F(c, n)) >>, unknownCount |-> 0]
 WriteCase(v) == [op |-> "prt_write", value |-> v, expect |-> IF RulesHold(v) THEN "ok" ELSE "refuse", canon |-> IF RulesHold(v) THEN Encode(v) ELSE <<>>]
+\* two frames (in one animation, or in two) whose count / list-length errors cancel in the totals: still refused, frame by frame
+Anim2(f, g) == [u1 |-> <<1,2,3,4>>, rect |-> [i \in 1..16 |-> i], disp |-> [i \in 1..8 |-> 100 + i], u2 |-> <<60,0,0,0>>, frames |-> <<f, g>>, unk |-> <<>>]
+V2(c1, n1, c2, n2, split) == [palettes |-> <<>>, images |-> <<>>, unknownCount |-> 0,
+                              anims |-> IF split THEN << Anim(F(c1, n1)), Anim(F(c2, n2)) >> ELSE << Anim2(F(c1, n1), F(c2, n2)) >>]
 Init == done = FALSE
 Next == /\ ~done /\ done' = TRUE
         /\ \A c \in 0..127 :
@@ -17,5 +21,7 @@ Next == /\ ~done /\ done' = TRUE
              \* list lengths that agree with the count only modulo 2^7 or 2^8 (what a narrowed comparison would accept)
              /\ (c % 16 \in {0, 4, 15} =>
                    PrintT("S|" \o ToJson([id |-> <<"layers-mod", c>>, steps |-> << WriteCase(V(c, c + 128)), WriteCase(V(c, c + 256)), WriteCase(V(c, c + 512)) >>])))
+        /\ \A pr \in { <<3, 2, 2, 3>>, <<0, 1, 1, 0>>, <<5, 4, 5, 6>>, <<127, 126, 0, 1>>, <<2, 2, 3, 3>> } : \A split \in BOOLEAN :
+             PrintT("S|" \o ToJson([id |-> <<"layer-pairs", pr, split>>, steps |-> << WriteCase(V2(pr[1], pr[2], pr[3], pr[4], split)) >>]))
 Spec == Init /\ [][Next]_done
 ====
